@@ -345,6 +345,104 @@ class Checker(object):
                 {'kind': kind, 'value': repr(v)})
 
 
+def pair_pool():
+    """Small formulas over shared symbols, one per operator family: every
+    ordered pair (first, then second) x every query is run."""
+    s_, t_ = B.Sym('s', B.STRING), B.Sym('t', B.STRING)
+    x, y = B.Sym('x', B.INT), B.Sym('y', B.INT)
+    r, q = B.Sym('r', B.REAL), B.Sym('q', B.REAL)
+    b, c = B.Sym('b', B.BV(4)), B.Sym('c', B.BV(4))
+    p, o = B.Sym('p', B.BOOL), B.Sym('o', B.BOOL)
+    a, a2 = B.Sym('a', G.A_II), B.Sym('a2', G.A_II)
+    u, v = B.Sym('u', G.US), B.Sym('v', G.US)
+    fI = B.FUN(B.INT, (B.INT,))
+
+    def e(l, r_):
+        return ('eq', None, (l, r_))
+    return [
+        e(s_, t_), e(('strlen', None, (s_,)), B.Int(1)),
+        ('strcontains', None, (s_, t_)),
+        e(('inttostr', None, (x,)), s_), e(('strtoint', None, (s_,)), x),
+        e(('strconcat', None, (s_, t_)), t_),
+        e(b, c), ('lt', None, (B.Int(0), ('bv2nat', None, (b,)))),
+        ('bvult', None, (b, ('bvadd', None, (b, c)))),
+        e(('extract', (0, 1), (b,)), ('extract', (2, 3), (c,))),
+        ('lt', None, (x, B.Int(1))), ('lt', None, (x, y)),
+        ('le', None, (('plus', None, (x, y)), B.Int(3))),
+        ('le', None, (('times', None, (x, y)), B.Int(3))),
+        ('le', None, (('times', None, (B.Int(2), x)), B.Int(3))),
+        ('le', None, (('minus', None, (x, y)), B.Int(3))),
+        ('lt', None, (('toreal', None, (x,)), r)), ('lt', None, (r, q)),
+        ('le', None, (('div', None, (r, q)), B.Real(1))),
+        ('le', None, (('div', None, (r, B.Real(2))), B.Real(1))),
+        e(('select', None, (a, x)), B.Int(1)), e(a, a2),
+        e(('store', None, (a, x, y)), a2),
+        e(a, ('arrayval', B.INT, (B.Int(0),))),
+        e(u, v), e(B.App('f', fI, (x,)), y),
+        e(B.App('f', fI, (B.App('f', fI, (x,)),)), x),
+        ('forall', (('x', B.INT),), (('lt', None, (x, y)),)),
+        ('exists', (('w', B.BV(4)),), (('bvult', None, (B.Sym('w', B.BV(4)),
+                                                      b)),)),
+        ('forall', (('k', G.US),), (p,)),
+        ('not', None, (('not', None, (p,)),)), ('and', None, (p, o)),
+        ('ite', None, (p, o, ('not', None, (o,)))),
+        e(('ite', None, (p, x, y)), x), ('iff', None, (p, o)),
+        ('implies', None, (p, ('lt', None, (x, y)))),
+    ]
+
+
+def pair_sequences(rep):
+    """q(f1) then q'(f2) in one environment against q'(f2) in a fresh one,
+    for all ordered pairs of pair_pool() and all queries."""
+    from pysmt.environment import Environment, push_env, pop_env
+    Q = queries()
+    qn = sorted(Q)
+    pool = pair_pool()
+    fresh = {}
+    idx = 0
+    for i, b1 in enumerate(pool):
+        for j, b2 in enumerate(pool):
+            idx += 1
+            if idx % rep.nshards != rep.shard:
+                continue
+            if rep.out_of_time():
+                rep.notes.append('pair sequences truncated')
+                return
+            for k, q in enumerate(qn):
+                # the earlier call: the same query, or another analysis
+                q0 = q if (i + j + k) % 3 else qn[(k + 7) % len(qn)]
+                if (j, q) not in fresh:
+                    envB = Environment()
+                    push_env(envB)
+                    try:
+                        o = outcome(lambda: Q[q][0](envB, B.build(b2, envB)))
+                    finally:
+                        pop_env()
+                    fresh[(j, q)] = ('ok', val(o[1])) if o[0] == 'ok' else o
+                envA = Environment()
+                push_env(envA)
+                try:
+                    f1 = B.build(b1, envA)
+                    f2 = B.build(b2, envA)
+                    outcome(lambda: Q[q0][0](envA, f1))
+                    o = outcome(lambda: Q[q][0](envA, f2))
+                finally:
+                    pop_env()
+                got = ('ok', val(o[1])) if o[0] == 'ok' else o
+                rep.count('pair_queries')
+                if Q[q][1]:
+                    continue      # fresh names: covered by the random part
+                if got != fresh[(j, q)]:
+                    rep.violation(
+                        'C14/history-dependent/pairs/%s-after-%s' % (q, q0),
+                        '%s(%s) after %s(%s) gives %s, in a fresh '
+                        'environment %s' % (q, B.show(b2, 80), q0,
+                                            B.show(b1, 80), str(got)[:150],
+                                            str(fresh[(j, q)])[:150]),
+                        {'bp': B.to_json(b2), 'kind': 'pairs'})
+            rep.case(key=('pair', i, j))
+
+
 def constant_sequences(rep):
     """Deterministic pairs: create c1, then ask for c2 (== c1 in Python)."""
     from pysmt.environment import Environment, push_env, pop_env
@@ -388,6 +486,10 @@ def run(rep):
     ck = Checker(rep)
     if rep.shard == 0 and (not rep.only or rep.only == 'constants'):
         constant_sequences(rep)
+    rep.share(0.35)
+    if not rep.only or rep.only == 'pairs':
+        pair_sequences(rep)
+    rep.share(1.0)
     n = 500 if rep.tier == 'quick' else 20000
     j = 0
     while j < n and not rep.out_of_time():
